@@ -167,7 +167,8 @@ def writer_file(rnd, nptdms, tmp):
                     kind = rnd.choice(["i4", "f8", "str", "u1", "ts"])
                     n = rnd.randint(0, 4)
                     if kind == "str":
-                        arr = ["s%d" % rnd.randint(0, 99) * rnd.randint(0, 2) for _ in range(n)]
+                        # an empty Python list would be typed float64 by the writer; a string channel's empty write is an object array
+                        arr = np.array(["s%d" % rnd.randint(0, 99) * rnd.randint(0, 2) for _ in range(n)], dtype=object)
                     elif kind == "ts":
                         arr = np.array([np.datetime64("2020-01-01T00:00:00", "us") + np.timedelta64(rnd.randint(0, 10 ** 9), "us") for _ in range(n)], dtype="datetime64[us]")
                     else:
